@@ -2065,6 +2065,22 @@ theorem C14_wf_identity_elimination (exact : Bool) (fuel : Nat) (w : World) (g :
     (ieModelK exact fuel w g funcs).w = replay w (ieModelK exact fuel w g funcs).trace.reverse :=
   ⟨(ieModelK_inv exact fuel w g funcs h).wf, (ieModelK_inv exact fuel w g funcs h).rep⟩
 
+/-- **C14_wf_init_inputs**: the same for RemoveInitializersFromInputsPass (`graph.inputs.clear()`,
+    `graph.inputs.extend(...)`) and AddInitializersToInputsPass (`graph.inputs.append(...)`) on the main graph. -/
+theorem C14_wf_init_inputs (w : World) (g : Nat) (h : WF w) :
+    (WF (rmInitInputsK w g).w ∧ (rmInitInputsK w g).w = replay w (rmInitInputsK w g).trace.reverse) ∧
+    (WF (addInitInputsK w g).w ∧ (addInitInputsK w g).w = replay w (addInitInputsK w g).trace.reverse) :=
+  ⟨⟨(rmInitInputsK_inv w g h).wf, (rmInitInputsK_inv w g h).rep⟩,
+    ⟨(addInitInputsK_inv w g h).wf, (addInitInputsK_inv w g h).rep⟩⟩
+
+/-- **C14_wf_output_fix**: the same for OutputFixPass, a pass that CREATES nodes and values (calls:
+    `ir.node("Identity", inputs=[output])`, `Value.name = ...` for the new output and for the renamed input,
+    `graph.append(node)`, `graph.outputs[i] = new_output`; main graph, subgraphs, functions). -/
+theorem C14_wf_output_fix (fuel : Nat) (w : World) (g : Nat) (funcs : List Nat) (h : WF w) :
+    WF (ofixModelK fuel w g funcs).w ∧
+    (ofixModelK fuel w g funcs).w = replay w (ofixModelK fuel w g funcs).trace.reverse :=
+  ⟨(ofixModelK_inv fuel w g funcs h).wf, (ofixModelK_inv fuel w g funcs h).rep⟩
+
 /-- any pass that touches the IR only through the modelled public mutators keeps the invariant: what the two
     theorems above instantiate (`C01_history_from` read as a statement about passes) -/
 theorem C14_wf_replay (w : World) (ops : List AnyOp) (h : WF w) : WF (replay w ops) :=
